@@ -41,7 +41,7 @@ TASKS = {
         "coef": [1.0, 2.0, 0.5], "nobj": 1, "weights": None, "minmax": "min", "seed": 42, "encoding": "contmulti", "dim": 3},
     2: {"vars": [{"t": "cont", "lb": 0.0, "ub": 5.0}, {"t": "cont", "lb": -4.0, "ub": 0.0}, {"t": "cont", "lb": -1.0, "ub": 1.0}],
         "family": "rastrigin", "shift": [1.0, -1.0, 0.25], "coef": [1.0, 1.0, 1.0], "nobj": 1, "weights": None, "minmax": "max",
-        "seed": 7, "encoding": "cont", "dim": 3},
+        "seed": 0, "encoding": "cont", "dim": 3},
     # a permutation task with STRING items: anything that depends on hashing (set order) differs between interpreters
     3: {"vars": [{"t": "perm", "n": 6}], "family": "sphere", "shift": [0.0], "coef": [1.0], "nobj": 1, "weights": None, "minmax": "min",
         "seed": 42, "encoding": "perm", "dim": 1},
